@@ -83,6 +83,10 @@ def build(job):
             # (with it, changes the user had already staged ride along: observation S17, outside the statement)
             if not allow and any(c not in [n for n, _s in pattern_files] + ["bumpver.toml"] for c in committed):
                 sweep = True
+            # ... but what the user had NOT staged (unstaged modification or deletion, untracked file) of an unrelated file stays out of the
+            # bump commit under --allow-dirty too: bumpver stages the configured paths only
+            if any(n in committed for n, pat, st in files if not pat and st in (" M", " D", "??")):
+                sweep = True
     paths = [n for n, _s in pattern_files] + ["bumpver.toml"]
     return dict(ev="dirty", tool="git", lines=[glue.cp(ln) for ln in lines], paths=[glue.cp(p) for p in paths], allow=allow, exit=r.exit, changed=before != after if r.exit != 0 else False,
                 sweep=sweep, committed=committed, exc=r.exc or "", states={n: s for n, _p, s in files},
